@@ -61,7 +61,7 @@ extern "C" void h_server(void)
 		if (scen == 1 || scen == 3)
 		{
 			// let the accept loop pick the connections up before the stop request
-			if (!vp_symbolic_run()) usleep(600000);
+			if (!vp_symbolic_run()) { for (int tries = 0; tries < 50 && (int)g_enter < n; tries++) usleep(100000); if (scen == 3) usleep(300000); }     // up to 5 s on a loaded machine
 			else for (int tries = 0; tries < 20; tries++) { bool all = true; for (int i = 0; i < n; i++) if (!vp_srv_accepted(h[i])) all = false; if (all) break; usleep(1000); }
 		}
 		if (scen == 3)
